@@ -205,3 +205,71 @@ contract(
     note="count-only form (new=None): the result is the sum over the individual text runs of the number of "
          "matches; no write operation is on that path (re assumed)",
 )
+
+
+# ------------------------------------------------------------------ the odfdo-replace command (C16): same law as Element.replace
+def _gen_script(con, sigcase, count, seed):
+    for pattern in ("report", "a", "[0-9]+", "Second|bold", "^Second", "^bold", "report$", "^Third paragraph$", "^ in", r"\s+",
+                    "zzz", "e.", "(?i)THIRD"):
+        for replacement in ("X", ""):
+            yield {"pattern": pattern, "replacement": replacement}
+
+
+def _call_script(con, fn, argvals, labels):
+    import os
+    import tempfile
+    import zipfile
+    from lxml import etree
+    from odfdo import Document, Header, Paragraph, Span
+    from odfdo.scripts.replace import search_replace
+    from pyvc.native import NativeResult
+    res = NativeResult()
+    res.checked = 1
+    pattern, replacement = argvals["pattern"], argvals["replacement"]
+    doc = Document("text")
+    body = doc.body
+    body.clear()
+    body.append(Header(1, "First report"))
+    p = Paragraph("Second paragraph with ")
+    p.append(Span("bold"))
+    p.children[-1]._Element__element.tail = " in it, 12 and 345"
+    body.append(p)
+    body.append(Paragraph("Third paragraph"))
+    body.append(Paragraph("the last report"))
+    TEXT = "urn:oasis:names:tc:opendocument:xmlns:office:1.0"
+
+    def runs(zpath):
+        with zipfile.ZipFile(zpath) as zf:
+            root = etree.fromstring(zf.read("content.xml"))
+        b = root.find(f".//{{{TEXT}}}body")
+        return [t for t in b.xpath(".//text()")]
+    with tempfile.TemporaryDirectory(prefix="c16s_") as td:
+        src, dst = os.path.join(td, "in.odt"), os.path.join(td, "out.odt")
+        doc.save(src)
+        before = [str(t) for t in runs(src)]
+        try:
+            search_replace(pattern, replacement, src, dst)
+        except Exception as e:  # noqa
+            res.failures.append(("ensures:script-replace", f"search_replace({pattern!r}, {replacement!r}) raised {e!r}"))
+            return res
+        after = [str(t) for t in runs(dst)]
+    cre = re.compile(pattern)
+    expected = [cre.sub(replacement, t) for t in before]
+    expected = [t for t in expected if t != ""]          # an emptied run is no text node any more
+    res.outcome = repr(after)[:200]
+    if after != expected:
+        res.failures.append(("ensures:script-replace", f"odfdo-replace {pattern!r} -> {replacement!r}: text runs {after!r}; the "
+                                                       f"pattern applied to each run gives {expected!r}"))
+    return res
+
+
+contract(
+    "odfdo.scripts.replace:search_replace",
+    sig=dict(pattern=Str, replacement=Str),
+    ensures=[Clause("script-replace", {"C16"}, lambda a, r, p: True)],
+    gen=_gen_script, call_native=_call_script,
+    bounded=dict(scope="13 patterns (literal, class, alternation, anchored at either end, white space, no match, flag) x "
+                       "replacements {'X', ''} on a 4-paragraph document with a span and a tail, through files; the text runs "
+                       "of the result are read with raw lxml and compared with re.sub on each original run",
+                 reason="command-line glue over Document.save / Element.replace (the counting kernel of replace is proved)"),
+)
